@@ -45,4 +45,19 @@ def chainOk : List Match → Bool
 /-- the whole of C03 for the result of one command -/
 def faithful (text : Bytes) (ms : List Match) : Bool := ms.all (matchOk text) && chainOk ms
 
+/-- C03 without the column claim (the property states it for ASCII inputs: Go counts columns in runes): what is
+demanded of a text that is not ASCII -/
+def matchOkNoCol (text : Bytes) (m : Match) : Bool :=
+  decide (m.startPos < m.endPos) && decide (m.endPos ≤ text.length) &&
+  (m.value == slice text m.startPos m.endPos) &&
+  (m.startLine == lineOf text m.startPos) && (m.endLine == lineOf text m.endPos) &&
+  mapSubB m.value m.vars
+
+def faithfulNoCol (text : Bytes) (ms : List Match) : Bool := ms.all (matchOkNoCol text) && chainOk ms
+
+/-- the predicate the correspondence evaluates on the implementation's matches: all of C03 on ASCII texts, all but
+the columns otherwise -/
+def faithfulFor (text : Bytes) (ms : List Match) : Bool :=
+  if text.all (· < 128) then faithful text ms else faithfulNoCol text ms
+
 end Vore.Spec
